@@ -43,6 +43,10 @@ type faultConn struct {
 	// data for the kernel buffers to fill and the session's Write to block on a slowly reading peer.
 	amp int
 
+	// closed (once) when a Write of the session has returned an error: the partial-write peer waits for it
+	werr     chan struct{}
+	werrOnce sync.Once
+
 	closeErr    bool // Close closes the connection and then reports an error (as a tls.Conn whose peer is gone does)
 	closeWrites int  // CloseWrite calls (only through faultConnHC)
 }
@@ -71,7 +75,7 @@ func (c *faultConn) forSession() net.Conn {
 }
 
 func newFaultConn(under net.Conn, id int) *faultConn {
-	return &faultConn{under: under, name: c16Addr(fmt.Sprintf("c16/%d", id))}
+	return &faultConn{under: under, name: c16Addr(fmt.Sprintf("c16/%d", id)), werr: make(chan struct{})}
 }
 
 func (c *faultConn) Read(b []byte) (int, error) {
@@ -125,6 +129,7 @@ func (c *faultConn) Write(b []byte) (int, error) {
 		n, err = c.under.Write(b)
 	}
 	if err != nil {
+		c.werrOnce.Do(func() { close(c.werr) })
 		c.mu.Lock()
 		f = c.wfault
 		c.mu.Unlock()
